@@ -65,7 +65,7 @@ def rand_op(rng, names_in, all_names, pool, wind):
     if k < 0.82:
         return dict(op="dist")
     kind = rng.choice(["stab", "damp", "ctrl", "state_derivs", "aero_center", "trim", "trim_noset", "trim_orient", "trim_orient_noset",
-                       "target_CL", "target_CL_noset", "derivs", "stab_all", "damp_all", "ctrl_all", "state_derivs_all"])
+                       "target_CL", "target_CL_noset", "derivs", "stab_all", "damp_all", "ctrl_all", "state_derivs_all", "stab_prev", "damp_prev"])
     return dict(op=kind, name=name)
 
 
@@ -122,6 +122,12 @@ def apply_op(sc, o, pool, names_ids, MX):
             return canon(sc.damping_derivatives(aircraft=o["name"])), None
         if k == "ctrl":
             return canon(sc.control_derivatives(aircraft=o["name"])), None
+        if k in ("stab_prev", "damp_prev", "derivs_prev"):
+            # the analyses accept initial_guess like solve_forces; the documentation promises the same converged answer. On a scene that
+            # has never solved (fresh comparison scene) there is no previous circulation: it uses the default guess.
+            kw = {"initial_guess": "previous"} if hasattr(sc, "_V_ji") else {}
+            fn = {"stab_prev": sc.stability_derivatives, "damp_prev": sc.damping_derivatives, "derivs_prev": sc.derivatives}[k]
+            return canon(fn(**kw)), None
         if k == "stab_all":
             return canon(sc.stability_derivatives()), None
         if k == "damp_all":
@@ -148,7 +154,7 @@ def apply_op(sc, o, pool, names_ids, MX):
     raise ValueError(k)
 
 
-QUERIES = ("solve", "dist", "stab", "damp", "ctrl", "stab_all", "damp_all", "ctrl_all", "state_derivs_all", "derivs", "state_derivs", "aero_center", "trim", "trim_noset", "trim_orient",
+QUERIES = ("solve", "dist", "stab", "damp", "ctrl", "stab_prev", "damp_prev", "derivs_prev", "stab_all", "damp_all", "ctrl_all", "state_derivs_all", "derivs", "state_derivs", "aero_center", "trim", "trim_noset", "trim_orient",
            "trim_orient_noset", "target_CL", "target_CL_noset")
 
 
@@ -250,7 +256,7 @@ def fsm_case(MX, ops, pool, sd=SD):
         return intern.setdefault(key, len(intern))
     coq, exp = [], []
     for o in ops:
-        if o["op"] in ("trim_orient", "derivs", "stab_all", "damp_all", "ctrl_all", "state_derivs_all"):
+        if o["op"] in ("trim_orient", "derivs", "stab_all", "damp_all", "ctrl_all", "state_derivs_all", "stab_prev", "damp_prev", "derivs_prev"):
             return None      # multi-aircraft aggregate / pose-setting trim: covered by the sweep, not by the trace model
         name = o.get("name")
         got = apply_op(sc, o, pool, names_ids, MX)
